@@ -92,6 +92,7 @@ func NewSession(kind int, o Options) *Session {
 	s := &Session{Kind: kind, Conn: conn, rt: o.ReadTimeout, dl: o.CtxDeadline}
 	switch kind {
 	case TCP, RTUNet:
+		conn.Net = true
 		cfg := modbus.ClientConfig{ReadTimeout: o.ReadTimeout, WriteTimeout: o.WriteTimeout, Hooks: o.Hooks,
 			DialContextFunc: func(ctx context.Context, address string) (net.Conn, error) { return conn, nil }}
 		var c *modbus.Client
@@ -151,6 +152,10 @@ func (s *Session) Do(req packet.Request, script xport.Script) Outcome {
 		ctx, c2 = context.WithTimeout(ctx, s.dl)
 		defer c2()
 	}
+	if TooManyHangs() {
+		// three calls of this process are already stuck for good: do not queue up more 20-second waits behind them
+		return Outcome{Conn: s.Conn, Hung: true, Stacks: "(not run: three earlier calls in this process never returned; see their reports)"}
+	}
 	s.Conn.Rearm(script, cancel)
 	out := Outcome{Conn: s.Conn}
 	done := make(chan struct{})
@@ -163,7 +168,7 @@ func (s *Session) Do(req packet.Request, script xport.Script) Outcome {
 	}()
 	select {
 	case <-done:
-	case <-time.After(s.rt*100 + 8*time.Second):
+	case <-time.After(watchdog(s.rt)):
 		// watchdog: at least 100x the configured total read timeout plus 8 s; then the goroutine dump is taken and the
 		// call gets another 12 s. Only a call that is still not back after both waits is reported as hung (with the stacks).
 		buf := make([]byte, 1<<16)
@@ -178,6 +183,18 @@ func (s *Session) Do(req packet.Request, script xport.Script) Outcome {
 	out.Elapsed = time.Since(start)
 	out.Events = s.Conn.Events()
 	return out
+}
+
+// watchdog: 100x the configured total read timeout (at most 20 s, at least 3x) plus 8 s.
+func watchdog(rt time.Duration) time.Duration {
+	w := 100 * rt
+	if w > 20*time.Second {
+		w = 20 * time.Second
+	}
+	if w < 3*rt {
+		w = 3 * rt
+	}
+	return w + 8*time.Second
 }
 
 // Run performs one Do call against a fresh client and scripted transport.
